@@ -724,6 +724,8 @@ def removed_count_term(ctx, ev, t):
                 same_list = b0[0] == 'mcall' and b0[1].endswith(('::begin', '::cbegin')) and e0[0] == 'mcall' and \
                     e0[1].endswith(('::end', '::cend')) and b0[2] == e0[2] and b0[2][0] == 'idx' and b0[2][2] == x and \
                     ctx.ev.role(b0[2][1]) == 'A'
+                if same_list and strip_cast(v0) != strip_cast(ev.args[1]) and f.node_dominates(defs[0][0], ev.node):
+                    ev.extra['wrong_count'] = (defs[0][1], v0)      # counts another value than the one removed: a definite mismatch
                 return bool(same_list and strip_cast(v0) == strip_cast(ev.args[1]) and f.node_dominates(defs[0][0], ev.node))
             if not f.can_reach(ev.node, defs[0][0]) and f.strip(defs[0][1]) != ev.node:
                 return False
@@ -1087,6 +1089,12 @@ class PairEngine:
                     subs.append(c)
         if len(subs) == 1 and f.can_reach_forward(e.node, subs[0].node):
             self.ok('F-PAIR.N', ctx, dict(function=f.display(), event=ctx.desc(e.node), companion=ctx.desc(subs[0].node)))
+        elif e.extra.get('wrong_count'):
+            wn, wv = e.extra['wrong_count']
+            self.R('F-PAIR.N').fail(Finding('F-PAIR.N', f.display(), site + ' <-> edgeNumber -= removed', f.nloc(e.node),
+                                            'the edge count is reduced by `%s`, the number of entries equal to `%s`, while the entries '
+                                            'removed are those equal to `%s`: the count no longer matches the lists'
+                                            % (f.expr_text(wn)[:60], show(wv, f.unit), show(y, f.unit))))
         else:
             self.fail('F-PAIR.N', ctx, site + ' <-> edgeNumber -= removed', e.node,
                       'all copies of an edge are removed from a list but the edge count is not reduced by the number '
